@@ -193,7 +193,8 @@ class Env:
         self.context = context
         self.own_db = db_path is None
         self.db_path = db_path or seams.fresh_db_path("ev")
-        self.backend = seams.open_backend(self.db_path, **(backend_conf or {}))
+        self.backend_conf = backend_conf or {}
+        self.backend = seams.open_backend(self.db_path, **self.backend_conf)
         self.extra_config = extra_config or {}
         self.outcomes: list = []
         self.schedulers: list = []
@@ -242,6 +243,12 @@ class Env:
         self.outcomes.append(out)
         self.ctl.obs.append(("outcome", self.ctl.run_index, out[0], repr(out[1:])[:300]))
         return out
+
+    def reopen_backend(self):
+        """A new backend object on the same database file (what the next `redun run` process would construct):
+        nothing kept in the old object's memory survives."""
+        seams.close_backend(self.backend)
+        self.backend = seams.open_backend(self.db_path, **self.backend_conf)
 
     def close(self):
         seams.close_backend(self.backend)
